@@ -62,6 +62,59 @@ Definition fun_ok (funs : list (string * frec)) (kv : string * frec) : bool :=
 Definition sess_ok (s : session) : bool :=
   forallb var_ok (s_vars s) && forallb (fun_ok (s_funs s)) (s_funs s).
 
+(* ---- sessions with a flavor and instances of it (evaluated per run; the value-level theorem is
+   SessionProofs.inst_value_reloads, the session-level round trip with flavors is not proved) ---- *)
+
+(* a value the snapshot's (setq name <value>) form evaluates back to, instances included: every instance variable's
+   value must itself be such a value (snapshot.go ppInstance passes each through ppValue again) *)
+Fixpoint snap_safe_x (v : obj) : bool :=
+  match v with
+  | Inst f slots =>
+      negb (f =? "inst")%string &&
+      (fix go (l : list (string * obj)) : bool :=
+         match l with [] => true | (k, w) :: r => plain_name k && snap_safe_x w && go r end) slots
+  | Flv _ _ _ _ _ _ => true
+  | _ => snap_safe v
+  end.
+
+Fixpoint strings_eqb (a b : list string) : bool :=
+  match a, b with
+  | [], [] => true
+  | x :: a', y :: b' => (x =? y)%string && strings_eqb a' b'
+  | _, _ => false
+  end.
+(* every instance inside v is an instance of a flavor of the session, with exactly its instance variables *)
+Fixpoint insts_ok (vars : list (string * vrec)) (v : obj) : bool :=
+  match v with
+  | Inst f slots =>
+      match alookup vars f with
+      | Some (mkV (Some (Flv f' ivars _ _ _ _)) _ false) => (f' =? f)%string && strings_eqb (map fst ivars) (map fst slots)
+      | _ => false
+      end &&
+      (fix go (l : list (string * obj)) : bool := match l with [] => true | (_, w) :: r => insts_ok vars w && go r end) slots
+  | Flv n _ _ _ _ _ => match alookup vars n with Some (mkV (Some (Flv _ _ _ _ _ _)) _ false) => true | _ => false end
+  | _ => true
+  end.
+Fixpoint keys_nodupb (l : list string) : bool :=
+  match l with [] => true | k :: r => negb (existsb (String.eqb k) r) && keys_nodupb r end.
+Definition is_flavor_var (kv : string * vrec) : bool :=
+  match snd kv with mkV (Some (Flv _ _ _ _ _ _)) _ _ => true | _ => false end.
+Definition var_ok_x (vars : list (string * vrec)) (kv : string * vrec) : bool :=
+  name_ok (fst kv) &&
+  match snd kv with
+  | mkV (Some v) _ true => const_safe v
+  | mkV (Some (Flv n ivars _ _ _ _)) _ false =>
+      (* the variable a flavor defines; defaults are written evaluated and unquoted [C19-flavor-default-unquoted] *)
+      (n =? fst kv)%string && keys_nodupb (map fst ivars)
+      && forallb (fun iv => plain_name (fst iv) && self_evaluating (snd iv)) ivars
+  | mkV (Some v) _ false => snap_safe_x v && insts_ok vars v
+  | mkV None _ _ => false
+  end.
+Definition sess_ok_x (s : session) : bool :=
+  forallb (var_ok_x (s_vars s)) (s_vars s)
+  && (List.length (filter is_flavor_var (s_vars s)) <=? 1)%nat      (* [C19-flavor-order-unstable] *)
+  && forallb (fun_ok (s_funs s)) (s_funs s).
+
 (* the specification as a decidable statement about one session *)
 Definition vrec_eqb (a b : vrec) : bool :=
   match v_val a, v_val b with
